@@ -286,7 +286,11 @@ def agg_oracle(case):
 @st.composite
 def m2d_case(draw, tier):
     nm = draw(st.integers(2, 300 if tier == "thorough" else 60))
-    return {"year": draw(st.integers(1890, 2110)),
+    # (half of the series start just before a century or leap-year February)
+    return {"year": draw(st.one_of(
+                st.sampled_from([1899, 1900, 2099, 2100, 1999, 2000, 1896,
+                                 2096, 1903, 2103]),
+                st.integers(1890, 2110))),
             "month": draw(st.integers(1, 12)),
             "vals": draw(st.lists(st.one_of(
                 st.floats(0., 500., allow_nan=False),
@@ -353,7 +357,9 @@ def m2d_oracle(case):
             f"to {sums[i]!r}, monthly input {exp[i]!r}")
     return {"nt": leapfeb, "labels": [f"interp:{case['interp']}",
                                       f"index:{how}"]
-            + (["leap-february"] if leapfeb else [])}
+            + (["leap-february"] if leapfeb else [])
+            + (["century-february"] if any(
+                d[1] == 2 and d[0] % 100 == 0 for d in days) else [])}
 
 
 # ------------------------------------------------------------ infinite values
